@@ -254,6 +254,17 @@ class FlowGen(object):
         # number the lines
         step = self.r.choice([1, 5, 10])
         ln = self.r.choice([1, 10, 100])
+        init = [("let", ("var", k), X.num(abs(v)) if v >= 0 else ("un", "-", X.num(abs(v))), False) for k, v in valuation.items()]
+        if self.items and self.items[0][0] == "label" and self.r.random() < 0.5:
+            # the program starts with a jump target: number it 0 (the smallest legal line number) and guard the
+            # initialisation so that coming back to line 0 does not repeat it
+            ln = 0
+            k = 0
+            while self.items[k][0] == "label":
+                k += 1
+            guard = ("if", ("bin", "=", ("var", "Z8"), n(0)), ("stmts", init + [("let", ("var", "Z8"), n(1), False)]), [], None)
+            self.items.insert(k, ("line", [guard]))
+            init = None
         pending = []
         lines = []
         for it in self.items:
@@ -269,7 +280,8 @@ class FlowGen(object):
             for t in pending:
                 t.line = ln
             lines.append((ln, [("rem", " END", "REM")]))
-        init = [("let", ("var", k), X.num(abs(v)) if v >= 0 else ("un", "-", X.num(abs(v))), False) for k, v in valuation.items()]
+        if init is None:
+            return resolve(lines)
         prog = [(0 if self.r.random() < 0.1 and lines[0][0] > 0 else max(0, lines[0][0] - 1), init)] + lines
         if prog[0][0] == lines[0][0]:
             prog = [(lines[0][0], init + lines[0][1])] + lines[1:]
